@@ -30,10 +30,8 @@ _NEGZERO = re.compile(r'(?<![0-9.eE])-0(?![0-9.eE])')
 
 
 def norm(sv):
-    """renderings are compared with -0 read as 0 (the expected values pass through the harness's canonical form, which drops the sign of zero)"""
-    if isinstance(sv, list):
-        return [norm(x) for x in sv]
-    return _NEGZERO.sub('0', sv) if isinstance(sv, str) else sv
+    """renderings are compared as they are (the expected values keep their raw bit patterns, sign of zero included)"""
+    return sv
 
 
 class Prop(BaseProp):
@@ -72,6 +70,8 @@ class Prop(BaseProp):
                     out.append({'py': {'id': cid, 'kind': 'op', 'type': tn, 'op': op, 'mode': 'dd', 'args': [a, b]}, 'steps': [(BIN[op][0], [])], 'args': [a, b], 'ty': ty})
                 else:
                     c = fl if mode == 'df' else float(it if it else 3)
+                    if mode == 'df' and rng.below(4) == 0:
+                        c = genvals.real_part(a, ty) * rng.choice([1.0, -1.0])
                     aux = [f2b(c)] if mode == 'df' else [int(c)]
                     out.append({'py': {'id': cid, 'kind': 'op', 'type': tn, 'op': op, 'mode': mode, 'aux': aux, 'args': [a]},
                                 'steps': [(BIN[op][1], [f2b(c)])], 'args': [a], 'ty': ty})
@@ -80,6 +80,8 @@ class Prop(BaseProp):
                 op = rng.choice(sorted(REFLECTED))
                 a = val(0.3, 3.0)
                 c = fl if mode == 'fd' else float(it)
+                if mode == 'fd' and rng.below(3) == 0:
+                    c = genvals.real_part(a, ty)            # results with a zero real part: the sign of zero must match too
                 aux = [f2b(c)] if mode == 'fd' else [int(c)]
                 steps = [(s[0], [f2b(c)] if s[0].endswith('_F') else []) for s in REFLECTED[op]]
                 out.append({'py': {'id': cid, 'kind': 'op', 'type': tn, 'op': op, 'mode': mode, 'aux': aux, 'args': [a]}, 'steps': steps, 'args': [a], 'ty': ty})
@@ -178,11 +180,17 @@ class Prop(BaseProp):
                 batch.append((c, Case('%s_s%d' % (c['py']['id'], phase), c['ty'], op, cur[c['py']['id']], aux, tag=c['py']['op'])))
             if not batch:
                 break
-            res = vlib.run_impl(exe, [b[1] for b in batch])
+            res = self.run_raw(exe, [b[1] for b in batch])
             for c, cs in batch:
-                r = res[cs.id]
-                c.setdefault('rust', []).append(r)
-                cur[c['py']['id']] = [r] if not (isinstance(r, list) and cs.op == 'sin_cos') else r
+                r = res[cs.id]           # raw bit patterns (sign of zero kept): they feed the next step and the rendering
+                if r == 'panic':
+                    canon = 'panic'
+                elif cs.op == 'sin_cos':
+                    canon = [vlib.canon_val(v, cs.ty) for v in r]
+                else:
+                    canon = vlib.canon_val(r, cs.ty)
+                c.setdefault('rust', []).append(canon)
+                cur[c['py']['id']] = [r] if cs.op != 'sin_cos' or r == 'panic' else r
                 allcases.append(cs)
                 c['last_case'] = cs
         # the same operations on the translated model inside Coq (the model that the theorems of C01..C11 are about)
@@ -247,6 +255,21 @@ class Prop(BaseProp):
                          'samples': [dict(c['py'], python=pyres.get(c['py']['id'])) for c in pc[:: max(1, len(pc) // 6)][:6]]})
         vlib.log('%s: %d python calls, %d equal to the Rust operation; model/Rust on the expected chains: %d/%d agree' % (self.pid, len(pc), ok, agree, len(mcases)))
 
+    def run_raw(self, exe, cases):
+        raw = vlib.run_harness(exe, [c.harness_line() for c in cases])
+        out = {}
+        for c in cases:
+            st, toks = raw[c.id]
+            if st != 'ok':
+                out[c.id] = 'panic'
+            elif c.op == 'sin_cos':
+                a, i = vlib.val_from_tokens(toks, c.ty)
+                b, _ = vlib.val_from_tokens(toks, c.ty, i)
+                out[c.id] = [a, b]
+            else:
+                out[c.id] = vlib.val_from_tokens(toks, c.ty)[0]
+        return out
+
     def compare(self, c, got, cur, shown, draw):
         py = c['py']
         cid = py['id']
@@ -259,7 +282,7 @@ class Prop(BaseProp):
             if 'error' in got:
                 return Violation('counterexample', 'python driver %s (n=%d) raises %s, the Rust driver returns a value' % (py['name'], len(py['x']), got['error']), case=py,
                                  expected=want, obtained=got)
-            if want == 'panic' or [vlib.canon_bits(b) for b in got['floats']] != [vlib.canon_bits(b) for b in want]:
+            if want == 'panic' or [b if b == b else 0 for b in got['floats']] != want:
                 return Violation('counterexample', 'python driver %s (n=%d, m=%d) differs from the Rust driver on the same closure' % (py['name'], len(py['x']), py.get('m', 1)),
                                  case=py, expected=[b2f(b) for b in want] if want != 'panic' else want, obtained=[b2f(b) for b in got['floats']])
             return None
@@ -272,8 +295,8 @@ class Prop(BaseProp):
             v = c['args'][0]
             for g, idx in GETTERS[py['type']].items():
                 if c['ty'].inner.is_float:
-                    want = [vlib.canon_bits(v[i]) for i in idx]
-                    have = [vlib.canon_bits(b) if isinstance(b, int) else b for b in got['getters'].get(g, [])]
+                    want = [v[i] for i in idx]
+                    have = got['getters'].get(g, [])
                 else:
                     want = [shown['%s_g%d' % (cid, i)] for i in idx]
                     have = got['getters'].get(g, [])
